@@ -46,7 +46,8 @@ from supvisors.options import SupvisorsOptions
 from supvisors.supervisordata import SupervisorData
 from supvisors.internal_com.mapper import SupvisorsMapper
 from supvisors.internal_com.rpchandler import RpcHandler
-from supvisors.internal_com.supervisorproxy import SupervisorProxy, InternalEventHeaders, SupervisorProxyException
+from supvisors.internal_com.supervisorproxy import (SupervisorProxy, SupervisorProxyThread, SupervisorProxyServer, InternalEventHeaders,
+                                                     SupervisorProxyException)
 from supvisors.statemodes import SupvisorsStateModes
 from supvisors.context import Context
 from supvisors.commander import Starter, Stopper, StarterModel
@@ -118,64 +119,39 @@ class FakeServerProxy:
         return json.loads(json.dumps(getattr(tgt.rpc, name)(*args)))
 
 
-class SimProxy(SupervisorProxy):
-    """ the real SupervisorProxy logic (publish / execute / check_instance / _is_authorized / xml_rpc error mapping);
-        the thread loop is replaced by an explicit FIFO queue stepped by the scheduler """
-    def __init__(self, status, supvisors, net):
-        super().__init__(status, supvisors); self.net = net; self.queue = []
+class _Q(list):
+    """ the proxy queue as a plain FIFO list (what `queue.Queue.put_nowait` does, without a consumer thread) """
+    def put_nowait(self, message): self.append(message)
+
+
+class SimProxy(SupervisorProxyThread):
+    """ the REAL SupervisorProxyThread (push_message / process_event / handle_exception and, inherited from SupervisorProxy,
+        publish / execute / check_instance / _is_authorized / xml_rpc error mapping); the thread is never started: the
+        scheduler pops one message at a time (`step`) """
+    def __init__(self, status, supvisors):
+        super().__init__(status, supvisors); self.net = supvisors.net; self.queue = _Q()
 
     @property
     def proxy(self): return FakeServerProxy(self.net, self.supvisors.mapper.local_identifier, self.status.identifier)
 
-    def push_message(self, message): self.queue.append(message)
+    def start(self): pass
+
+    def join(self, timeout=None):
+        # what the end of `run` does once `stop` has been called: pending messages are dropped, the server forgets the proxy
+        if self.stop_event.is_set():
+            del self.queue[:]
+            self.supvisors.rpc_handler.proxy_server.on_proxy_closing(self.status.identifier)
 
     def step(self):
-        """ SupervisorProxyThread.process_event + handle_exception, verbatim """
-        event = self.queue.pop(0)
-        try:
-            event_type, (source, event_body) = event
-            if event_type == InternalEventHeaders.REQUEST: self.execute(event_body)
-            elif event_type == InternalEventHeaders.PUBLICATION: self.publish(source, event_body)
-            elif event_type == InternalEventHeaders.NOTIFICATION:
-                self.send_remote_comm_event(SUPVISORS_NOTIFICATION, (source, event_body))
-        except SupervisorProxyException:
-            if self.status.identifier == self.local_identifier: pass
-            elif self.status.has_active_state():
-                origin = self._get_origin(self.status.identifier)
-                self.supvisors.rpc_handler.proxy_server.push_notification(
-                    (origin, (NotificationHeaders.INSTANCE_FAILURE.value, None)))
+        self.process_event(self.queue.pop(0))
 
 
-class SimProxyServer:
-    """ SupervisorProxyServer with the real `get_proxy` semantics (no proxy for an ISOLATED instance) """
-    def __init__(self, supvisors, net): self.supvisors, self.net, self.proxies = supvisors, net, {}
+class SimProxyServer(SupervisorProxyServer):
+    """ the REAL SupervisorProxyServer (get_proxy / push_request / push_publication / push_notification), creating
+        `SimProxy` objects instead of running threads """
+    klass = SimProxy
 
-    @property
-    def local_identifier(self): return self.supvisors.mapper.local_identifier
-
-    def get_proxy(self, identifier):
-        proxy = self.proxies.get(identifier); status = self.supvisors.context.instances[identifier]
-        if not proxy and not status.isolated:
-            proxy = self.proxies[identifier] = SimProxy(status, self.supvisors, self.net)
-        elif proxy and status.isolated:
-            del self.proxies[identifier]; proxy = None
-        return proxy
-
-    def stop(self): pass
-
-    def push_request(self, identifier, message):
-        proxy = self.get_proxy(identifier)
-        if proxy: proxy.push_message((InternalEventHeaders.REQUEST, (self.local_identifier, message)))
-
-    def push_publication(self, message):
-        for identifier in self.supvisors.mapper.instances:
-            if identifier != self.local_identifier:
-                proxy = self.get_proxy(identifier)
-                if proxy: proxy.push_message((InternalEventHeaders.PUBLICATION, (self.local_identifier, message)))
-
-    def push_notification(self, message):
-        proxy = self.get_proxy(self.local_identifier)
-        if proxy: proxy.push_message((InternalEventHeaders.NOTIFICATION, message))
+    def __init__(self, supvisors, net=None): super().__init__(supvisors)
 
 
 class RecLogger:
